@@ -944,9 +944,16 @@ func (p *queryPlan) projectAndGroupBy() error {
 		})
 		p.tbl.AddBindings(p.stm.OutputBindings())
 		// For each row, copy each input binding value to its appropriate alias.
-		for _, prj := range p.stm.Projections() {
-			for _, row := range p.tbl.Rows() {
-				row[prj.Alias] = row[prj.Binding]
+		// All the values are read before any alias is written, since an alias
+		// may have the name of a binding another projection reads.
+		prjs := p.stm.Projections()
+		for _, row := range p.tbl.Rows() {
+			vals := make([]*table.Cell, len(prjs))
+			for i, prj := range prjs {
+				vals[i] = row[prj.Binding]
+			}
+			for i, prj := range prjs {
+				row[prj.Alias] = vals[i]
 			}
 		}
 		outputBindings := p.stm.OutputBindings()
